@@ -436,6 +436,14 @@ func runE2E(seed int64, nscen int, out string) {
 			scenario(seed, policy, s, enc)
 		}
 	}
+	// background compaction under wait_compact over same-named collections of different types
+	ncp := nscen / 4
+	if ncp < 3 {
+		ncp = 3
+	}
+	for i := 0; i < ncp; i++ {
+		compactScenario(seed, i, enc)
+	}
 	// secondary hash indexes on tables with prefix-related names
 	nix := nscen / 8
 	if nix < 2 {
